@@ -23,7 +23,7 @@
 (* inner behaviour, outcome seen by the client / in the access log).       *)
 (*                                                                         *)
 (* The constants FIX_* select the repaired (TRUE) or the original (FALSE)  *)
-(* design for the three defects found with this model (see notes/C12.md,    *)
+(* design for the four defects found with this model (see notes/C12.md,    *)
 (* notes/C20.md): with any of them FALSE, TLC refutes an invariant.        *)
 (***************************************************************************)
 EXTENDS Naturals, Sequences, FiniteSets, TLC, Json
@@ -32,7 +32,8 @@ CONSTANTS Optional,      \* the optional wrappers configurations range over
           EMIT,          \* TRUE: print one CASE line per terminal state
           FIX_VISIBLE,   \* errors.go: `errors visible` does not write when status = 0
           FIX_TPL,       \* templates.go: a buffered response is passed on when the handler returned (0, err)
-          FIX_LOGPANIC   \* log.go: a panic unwinding through log is answered and logged by log
+          FIX_LOGPANIC,  \* log.go: a panic unwinding through log is answered and logged by log
+          FIX_RECFIRST   \* recorder.go: ResponseRecorder keeps the status of the first WriteHeader (the one net/http sends)
 
 Chain == << "server", "limits", "request_id", "log", "rewrite", "gzip", "header", "errors",
             "basicauth", "status", "mime", "internal", "templates", "probe" >>
@@ -62,6 +63,10 @@ Requests(c) ==
 Behaviours ==
     [k : {"ret"}, s : {0, 200, 204, 301, 404, 500}, e : BOOLEAN, x : {FALSE}]
     \cup {b \in [k : {"write"}, s : {200, 404}, e : BOOLEAN, x : BOOLEAN] : b.s = 200 \/ b.x}
+    \* a handler that breaks the contract: it writes a 200 response and then returns an error status
+    \* all the same (in tree: browse when an archive fails half-way).  C12 says nothing about what
+    \* the client should get then; C20 still wants the log line to tell what the client got
+    \cup [k : {"writeret"}, s : {500}, e : BOOLEAN, x : BOOLEAN]
     \cup [k : {"panicbefore"}, s : {0}, e : {FALSE}, x : {FALSE}]
     \cup [k : {"panicafter"}, s : {200}, e : {FALSE}, x : BOOLEAN]
 NoBeh == [k |-> "ret", s |-> 0, e |-> FALSE, x |-> FALSE]     \* probe not reached (status rule answers)
@@ -77,7 +82,8 @@ WInit == [ commits |-> << >>,      \* status of every header commit that reached
            sentCE  |-> FALSE,      \* Content-Encoding: gzip was in the header map at that moment
            body    |-> << >>,      \* body parts that reached the connection: [t |-> token, z |-> compressed]
            hdrCE   |-> FALSE,      \* header map currently has Content-Encoding: gzip
-           recSt   |-> 200,        \* ResponseRecorder.status (the last WriteHeader wins)
+           recSt   |-> 200,        \* ResponseRecorder.status (original: the last WriteHeader wins; repaired: the first)
+           recW    |-> FALSE,      \* ResponseRecorder has seen a WriteHeader or a Write
            recSz   |-> << >>,      \* ResponseRecorder.size, as the parts counted
            gzDecided |-> FALSE, gzComp |-> FALSE, gzHdrs |-> 0,   \* ResponseFilterWriter
            hw      |-> FALSE,      \* header.responseWriterWrapper.wroteHeader
@@ -102,7 +108,7 @@ WH(w, k, s) ==
                           !.sent = IF w.sent = 0 THEN s ELSE @,
                           !.sentCE = IF w.sent = 0 THEN w.hdrCE ELSE @]
            [] WLayers[k] = "log" ->
-                WH([w EXCEPT !.recSt = s], k - 1, s)
+                WH([w EXCEPT !.recSt = IF FIX_RECFIRST /\ w.recW THEN @ ELSE s, !.recW = TRUE], k - 1, s)
            [] WLayers[k] = "gzip" ->
                 \* every call re-evaluates the filters: SkipCompressedFilter says no once
                 \* Content-Encoding is set (also by this writer's first call)
@@ -128,7 +134,7 @@ WR(w, k, t) ==
                           ELSE IF w.sent = 0 THEN [w EXCEPT !.sent = 200, !.sentCE = w.hdrCE] ELSE w
                 IN  IF NoBody(w1.sent) THEN w1 ELSE [w1 EXCEPT !.body = Append(@, t)]
            [] WLayers[k] = "log" ->
-                LET w1 == WR(w, k - 1, t) IN
+                LET w1 == WR([w EXCEPT !.recW = TRUE], k - 1, t) IN
                 IF NoBody(w1.sent) THEN w1 ELSE [w1 EXCEPT !.recSz = Append(@, t)]
            [] WLayers[k] = "gzip" ->
                 LET w1 == IF w.gzDecided THEN w ELSE WH(w, k, 200) IN
@@ -182,8 +188,8 @@ EnterStatus ==   \* status.go: a matching rule answers itself
 \* -- the innermost handler (harness/probe/verifprobe.go), one action per call it makes
 ProbeHeader ==
     /\ dir = "in" /\ Chain[pos] = "probe" /\ pstep = "start"
-    /\ beh.k \in {"write", "panicafter"}
-    /\ W' = IF beh.k = "panicafter" \/ beh.x THEN WH(W, 6, beh.s) ELSE W
+    /\ beh.k \in {"write", "panicafter", "writeret"}
+    /\ W' = IF beh.k = "panicafter" \/ beh.x THEN WH(W, 6, IF beh.k = "writeret" THEN 200 ELSE beh.s) ELSE W
     /\ pstep' = "body"
     /\ UNCHANGED <<cfg, req, beh, dir, pos, ret, lines, errlog>>
 ProbeBody ==
@@ -200,6 +206,7 @@ ProbeReturn ==
     /\ dir = "in" /\ Chain[pos] = "probe"
     /\ \/ beh.k = "ret" /\ pstep = "start" /\ ret' = [s |-> beh.s, e |-> beh.e]
        \/ beh.k = "write" /\ pstep = "end" /\ ret' = [s |-> 0, e |-> beh.e]
+       \/ beh.k = "writeret" /\ pstep = "end" /\ ret' = [s |-> beh.s, e |-> beh.e]
     /\ dir' = "out" /\ pos' = Outer(pos)
     /\ UNCHANGED <<cfg, req, beh, W, lines, errlog, pstep>>
 ProbePanic ==
@@ -328,7 +335,7 @@ Eff == IF req.path = "st404" THEN [k |-> "ret", s |-> 404, e |-> FALSE, x |-> FA
 Done == dir = "done"
 
 \* ---- C12 ------------------------------------------------------------------------------
-OneCommitP(b, o) == b.k # "panicafter" => Len(o.commits) <= 1
+OneCommitP(b, o) == b.k \notin {"panicafter", "writeret"} => Len(o.commits) <= 1
 ErrorGetsBodyP(c, b, o) ==
     (b.k = "ret" /\ b.s >= 400) =>
         /\ o.status = b.s /\ o.body # << >> /\ o.decodable
